@@ -33,12 +33,18 @@ def rule_r5_names(ctx: Ctx) -> None:
     pname = fn.params[0]
     paths = paths_of(fn.node)
 
+    def assigned(name: str) -> Any:
+        """the expression a module-level name of _name is bound to, wherever it is written (a table that moved to another
+        module and is imported back is the same table)"""
+        r = repo.module_member(mod.name, name)
+        return r if isinstance(r, ast.expr) else None
+
     def fold_const(name: str) -> Any:
-        e = mod.assigns.get(name)
+        e = assigned(name)
         if e is None:
             raise AnalysisError("_name.%s missing" % name)
         try:
-            return Folder({}, repo, mod).fold(e)
+            return Folder({}, repo, mod).fold(ast.Name(id=name, ctx=ast.Load()))
         except Unfoldable as ex:
             raise AnalysisError("cannot fold _name.%s: %s" % (name, ex))
 
@@ -100,15 +106,15 @@ def rule_r5_names(ctx: Ctx) -> None:
         return
     ctx.check(raise_classes_ok, fn.short, "rejection class", "name rejections must be InvalidDefinitionError subclasses", fn.where())
     # alphabets
-    fs = set(fold_const(first_set)) if first_set in mod.assigns else None
-    rs = set(fold_const(rest_set)) if rest_set in mod.assigns else None
+    fs = set(fold_const(first_set)) if assigned(first_set) is not None else None
+    rs = set(fold_const(rest_set)) if assigned(rest_set) is not None else None
     ctx.check(fs == spec.NAME_FIRST, fn.short, "first character alphabet", "a name must start with [A-Za-z_]", fn.where(), {"extra": sorted((fs or set()) - spec.NAME_FIRST), "missing": sorted(spec.NAME_FIRST - (fs or set()))})
     ctx.check(rs == spec.NAME_REST, fn.short, "continuation alphabet", "a name may contain only [A-Za-z0-9_]", fn.where(), {"extra": sorted((rs or set()) - spec.NAME_REST), "missing": sorted(spec.NAME_REST - (rs or set()))})
     ctx.check(lowered_everywhere, fn.short, "case-insensitive matching", "reserved words / patterns must be matched against the lower-cased name", fn.where())
 
     # reserved language
     plist_name = pattern_sources.pop()
-    plist = mod.assigns.get(plist_name)
+    plist = assigned(plist_name)
     if not isinstance(plist, (ast.List, ast.Tuple)):
         raise AnalysisError("reserved pattern list %s is not a literal list" % plist_name)
     dfas = []
